@@ -123,6 +123,8 @@ class Dataset(AbstractDataset, dict, OpMixin, GetSetDelAttrMixin):
             raise ValueError("dimension mistmatch")
         if len(set(newdims)) != len(newdims):
             raise ValueError("dimension names must be distinct, got: {}".format(newdims))
+        if not all(isinstance(name, str) and name for name in newdims):
+            raise ValueError("dimension names must be non-empty strings, got: {}".format(newdims)) # before any axis is renamed
 
         # update every element's dimension
         for i, newname in enumerate(newdims):
